@@ -319,6 +319,9 @@ func (s *Sim) KillCore() {
 		<-done
 	}
 	s.mu.Lock()
+	if s.cmd == cmd {
+		s.cmd = nil // the waiter closes done before it takes s.mu: do not leave a window for StartCore
+	}
 	if s.stderrF != nil {
 		s.stderrF.Close()
 		s.stderrF = nil
